@@ -7,7 +7,10 @@ from fractions import Fraction
 from common import close, frac, TOL
 import gen
 
-EXACT_BITS = 53
+# exact comparison iff the model's computation history needs at most this many mantissa bits.  Not 53: the code may
+# add the terms of an activation in another order than the model (set order under remove_duplicates=True, id order
+# from a merged Counter); a partial sum of up to 16 terms needs at most 4 bits more than the largest term or the total
+EXACT_BITS = 49
 
 
 def model_request(case, learner):
@@ -72,7 +75,7 @@ def model_cells(reply):
 def compare(impl, model):
     """
     None when implementation and model agree, else a short description.
-    Values: exact in the exact-dyadic domain (model bits <= 53), 2^-30 relative
+    Values: exact in the exact-dyadic domain (model bits <= EXACT_BITS), 2^-30 relative
     otherwise. Labels (for labelled matrices): same sets.
     """
     if 'err' in model:
